@@ -62,3 +62,280 @@ func decodeAll(ls []string, max int) []string {
 	}
 	return out
 }
+
+// ---------------------------------------------------------------- sound, model-free oracles on parse observations
+
+type parseObs struct {
+	argv    []string
+	ret     []string
+	errKind string // ok | flags | foreign | ini
+	errType int
+	errMsg  string
+	masked  bool
+	panic   string
+	logs    []string
+	stdout  string
+	stderr  string
+	hasOut  bool
+	values  []string // O lines
+	act     string
+}
+
+// parseBlocks splits the implementation's observation lines into one block per parse op.
+func parseBlocks(cr *CaseResult) []parseObs {
+	var out []parseObs
+	var cur *parseObs
+	pi := 0
+	var parses []Op
+	for _, op := range cr.Case.Ops {
+		if op.Kind == "parse" {
+			parses = append(parses, op)
+		}
+	}
+	flush := func() {
+		if cur != nil {
+			out = append(out, *cur)
+			cur = nil
+		}
+	}
+	for _, l := range cr.Impl {
+		switch {
+		case strings.HasPrefix(l, "RET "), strings.HasPrefix(l, "PANIC"):
+			flush()
+			cur = &parseObs{}
+			if pi < len(parses) {
+				cur.argv = parses[pi].Args
+			}
+			pi++
+			if strings.HasPrefix(l, "PANIC") {
+				cur.panic = l
+				continue
+			}
+			ws := strings.Fields(l)
+			cur.errKind = ws[1]
+			i := 2
+			switch ws[1] {
+			case "flags":
+				fmt.Sscanf(ws[2], "%d", &cur.errType)
+				if ws[3] == "MASKED" {
+					cur.masked = true
+				} else {
+					cur.errMsg, _ = unhx(ws[3])
+				}
+				i = 4
+			case "foreign":
+				if ws[2] == "MASKED" {
+					cur.masked = true
+				} else {
+					cur.errMsg, _ = unhx(ws[2])
+				}
+				i = 3
+			}
+			for _, w := range ws[i+1:] {
+				s, _ := unhx(w)
+				cur.ret = append(cur.ret, s)
+			}
+		case cur == nil:
+		case strings.HasPrefix(l, "LOG "):
+			cur.logs = append(cur.logs, l)
+		case strings.HasPrefix(l, "STDOUT "):
+			cur.stdout, _ = unhx(l[7:])
+			cur.hasOut = true
+		case strings.HasPrefix(l, "STDERR "):
+			cur.stderr, _ = unhx(l[7:])
+			cur.hasOut = true
+		case strings.HasPrefix(l, "O "):
+			cur.values = append(cur.values, l)
+		case strings.HasPrefix(l, "ACT"):
+			cur.act = l
+		case strings.HasPrefix(l, "HELP"), strings.HasPrefix(l, "CMD "):
+			flush()
+		}
+	}
+	flush()
+	return out
+}
+
+func isSubsequence(sub, full []string) bool {
+	i := 0
+	for _, f := range full {
+		if i < len(sub) && sub[i] == f {
+			i++
+		}
+	}
+	return i == len(sub)
+}
+
+func caseInput(cr *CaseResult, o parseObs) map[string]interface{} {
+	return map[string]interface{}{"case": cr.Case.Description, "argv": o.argv, "case_file": "(saved on violation)"}
+}
+
+// oracleNoPanic (C04, C17-in-help): the library never panics.
+func oracleNoPanic(c *Ctx, cr *CaseResult) {
+	for _, o := range parseBlocks(cr) {
+		ok := o.panic == ""
+		in := caseInput(cr, o)
+		if !ok {
+			in["case_file"] = c.saveCase(cr)
+		}
+		c.Check("parse-never-panics", ok, "C04:parse-panic", in, o.panic, "normal return")
+	}
+	for _, l := range cr.Impl {
+		if strings.HasPrefix(l, "HARNESS-PANIC") {
+			c.Check("build-never-panics", false, "C19:build-panic", map[string]interface{}{"case": cr.Case.Description, "case_file": c.saveCase(cr)}, l, "typed error")
+		}
+	}
+}
+
+// oracleContained (C04): typed errors and output discipline.
+func oracleContained(c *Ctx, cr *CaseResult) {
+	printErrors := cr.Case.Opts&16 != 0
+	hasPositional := strings.Contains(strings.Join(cr.Lines, "\n"), hx("positional-args")[1:])
+	for _, o := range parseBlocks(cr) {
+		if o.panic != "" {
+			continue
+		}
+		in := caseInput(cr, o)
+		fail := func(name, key, got, want string) {
+			in["case_file"] = c.saveCase(cr)
+			c.Check(name, false, key, in, got, want)
+		}
+		// foreign errors may only come from user code or positional conversion
+		if o.errKind == "foreign" && !o.masked {
+			userCode := strings.HasPrefix(o.errMsg, "cberr: ") || strings.HasPrefix(o.errMsg, "handler refused: ") || strings.HasPrefix(o.errMsg, "exec failed: ")
+			if !userCode && !hasPositional {
+				fail("rejections-are-typed", "C04:untyped-error", "foreign error: "+o.errMsg, "*flags.Error")
+				continue
+			}
+		}
+		c.Check("rejections-are-typed", true, "", nil, "", "")
+		// output discipline
+		switch {
+		case !printErrors || o.errKind == "ok":
+			if o.hasOut {
+				fail("no-output-unless-PrintErrors", "C04:unexpected-output", fmt.Sprintf("stdout=%q stderr=%q", o.stdout, o.stderr), "nothing written")
+				continue
+			}
+		case o.masked:
+		default:
+			isHelp := o.errKind == "flags" && o.errType == 5
+			wantOut, wantErr := "", o.errMsg+"\n"
+			if isHelp {
+				wantOut, wantErr = o.errMsg+"\n", ""
+			}
+			if o.stdout != wantOut || o.stderr != wantErr {
+				fail("error-text-written-exactly-once", "C04:wrong-output", fmt.Sprintf("stdout=%q stderr=%q", o.stdout, o.stderr), fmt.Sprintf("stdout=%q stderr=%q", wantOut, wantErr))
+				continue
+			}
+		}
+		c.Check("output-discipline", true, "", nil, "", "")
+	}
+}
+
+// oracleConserved (C03): on success the returned arguments are a subsequence of argv
+// (plus the tokens a "prepend" handler invented).
+func oracleConserved(c *Ctx, cr *CaseResult) {
+	for _, o := range parseBlocks(cr) {
+		if o.panic != "" || o.errKind != "ok" {
+			continue
+		}
+		full := o.argv
+		if cr.Case.Handler == "prepend" {
+			var f2 []string
+			for _, a := range o.argv {
+				f2 = append(f2, cr.Case.HandlerTok, a)
+			}
+			full = append(f2, cr.Case.HandlerTok)
+		}
+		ok := isSubsequence(o.ret, full)
+		in := caseInput(cr, o)
+		if !ok {
+			in["case_file"] = c.saveCase(cr)
+		}
+		c.Check("remaining-args-are-a-subsequence-of-argv", ok, "C03:not-subsequence", in, fmt.Sprintf("%q", o.ret), fmt.Sprintf("subsequence of %q", full))
+		// exec receives exactly the returned arguments
+		for _, l := range o.logs {
+			if strings.HasPrefix(l, "LOG exec ") || strings.HasPrefix(l, "LOG cmdhandler ") {
+				ws := strings.Fields(l)
+				got := strings.Join(ws[3:], " ")
+				ok := got == hxList(o.ret)
+				if !ok {
+					in["case_file"] = c.saveCase(cr)
+				}
+				c.Check("command-receives-the-returned-arguments", ok, "C03:exec-args-differ", in, decodeLine(got), decodeLine(hxList(o.ret)))
+			}
+		}
+	}
+}
+
+// oracleExec (C09): nothing runs on a parse error; at most one Execute; a Commander innermost
+// command runs exactly once on success.
+func oracleExec(c *Ctx, cr *CaseResult) {
+	for _, o := range parseBlocks(cr) {
+		if o.panic != "" {
+			continue
+		}
+		nExec, nHandler := 0, 0
+		for _, l := range o.logs {
+			if strings.HasPrefix(l, "LOG exec ") {
+				nExec++
+			}
+			if strings.HasPrefix(l, "LOG cmdhandler ") {
+				nHandler++
+			}
+		}
+		in := caseInput(cr, o)
+		fail := func(name, key, got, want string) {
+			in["case_file"] = c.saveCase(cr)
+			c.Check(name, false, key, in, got, want)
+		}
+		fromExec := strings.HasPrefix(o.errMsg, "exec failed: ") || strings.HasPrefix(o.errMsg, "help from ")
+		if o.errKind != "ok" && !fromExec && (nExec > 0 || nHandler > 0) {
+			fail("nothing-executes-on-error", "C09:exec-on-error", fmt.Sprintf("error %q with %d Execute and %d CommandHandler calls", o.errMsg, nExec, nHandler), "no invocation")
+			continue
+		}
+		if nExec > 1 || nHandler > 1 {
+			fail("at-most-one-invocation", "C09:exec-twice", fmt.Sprintf("%d Execute, %d CommandHandler", nExec, nHandler), "at most one each")
+			continue
+		}
+		if o.errKind == "ok" && cr.Case.CmdHandler && nHandler != 1 {
+			fail("handler-runs-once-on-success", "C09:handler-missing", fmt.Sprintf("%d CommandHandler calls", nHandler), "exactly 1")
+			continue
+		}
+		c.Check("exec-discipline", true, "", nil, "", "")
+	}
+}
+
+// oracleHandler (C07): with the identity handler, every handler call receives a suffix of argv.
+func oracleHandler(c *Ctx, cr *CaseResult) {
+	if cr.Case.Handler != "identity" {
+		return
+	}
+	for _, o := range parseBlocks(cr) {
+		for _, l := range o.logs {
+			if !strings.HasPrefix(l, "LOG unknown ") {
+				continue
+			}
+			ws := strings.Fields(l)
+			var args []string
+			for _, w := range ws[5:] {
+				s, _ := unhx(w)
+				args = append(args, s)
+			}
+			ok := len(args) <= len(o.argv)
+			if ok {
+				tail := o.argv[len(o.argv)-len(args):]
+				for i := range args {
+					if tail[i] != args[i] {
+						ok = false
+					}
+				}
+			}
+			in := caseInput(cr, o)
+			if !ok {
+				in["case_file"] = c.saveCase(cr)
+			}
+			c.Check("handler-receives-the-unconsumed-arguments", ok, "C07:handler-args", in, fmt.Sprintf("%q", args), "a suffix of argv")
+		}
+	}
+}
